@@ -519,13 +519,17 @@ def generic_graph(kind: str, later_residual: bool, skip_source: str) -> Tuple[Li
 
 
 def towers(max_towers: int) -> Iterator[Tuple[str, List[Node]]]:
-    """DAGs that are not a single residual stream: 2-3 parallel towers, each a residual block
-    on its own input (or on a shared input through an opaque op), merged by mul / a plain add /
-    matmul, optionally followed by an op; every op of every tower has a later residual add"""
+    """DAGs that are not a single residual stream: 2-3 parallel towers, each a chain of 1-2
+    residual blocks on its own input (or on a shared input through an opaque op), merged by
+    mul / a plain add / matmul, optionally followed by an op; every op of every tower has a
+    later residual add, whatever the program order of the towers"""
     branches = {"mlp": ["linear", "gelu", "linear"], "softmax": ["linear", "softmax"], "unmapped": ["tanh"]}
     merges = {"mul": "operator.mul", "plain_add": "operator.add", "matmul": "torch.matmul"}
+    tower_kinds = [("mlp",), ("unmapped",), ("softmax",), ("mlp", "mlp"), ("softmax", "unmapped")]
     for nt in range(2, max_towers + 1):
-        for combo in itertools.product(sorted(branches), repeat=nt):
+        for combo in itertools.product(tower_kinds, repeat=nt):
+            if nt == 3 and sum(len(t) for t in combo) > 4:
+                continue
             for merge in sorted(merges):
                 for tail in ("none", "gelu"):
                     for shared in (False, True):
@@ -540,27 +544,30 @@ def towers(max_towers: int) -> Iterator[Tuple[str, List[Node]]]:
                         outs = []
                         if shared:
                             g.append(node("x", "placeholder", "x"))
-                        for ti, b in enumerate(combo):
+                        for ti, blocks in enumerate(combo):
                             if shared:
-                                skip = emit("user.plain", [ref("x")])
+                                cur = emit("user.plain", [ref("x")])
                             else:
                                 g.insert(ti, node(f"x{ti}", "placeholder", f"x{ti}"))
-                                skip = f"x{ti}"
-                            h = skip
-                            for kind in branches[b]:
-                                if kind == "linear":
-                                    h = emit("F.linear", [ref(h), ref("w")])
-                                else:
-                                    t, a, kw = UNARY[kind](ref(h))
-                                    h = emit(t, a, kw)
-                            outs.append(emit("operator.add", [ref(skip), ref(h)]))
+                                cur = f"x{ti}"
+                            for b in blocks:
+                                skip = cur
+                                h = skip
+                                for kind in branches[b]:
+                                    if kind == "linear":
+                                        h = emit("F.linear", [ref(h), ref("w")])
+                                    else:
+                                        t, a, kw = UNARY[kind](ref(h))
+                                        h = emit(t, a, kw)
+                                cur = emit("operator.add", [ref(skip), ref(h)])
+                            outs.append(cur)
                         cur = outs[0]
                         for o in outs[1:]:
                             cur = emit(merges[merge], [ref(cur), ref(o)])
                         if tail == "gelu":
                             cur = emit("F.gelu", [ref(cur)])
                         g.append(node("output", "output", "output", [(ref(cur),)]))
-                        yield f"towers={'|'.join(combo)},merge={merge},tail={tail},shared_input={shared}", g
+                        yield f"towers={'|'.join('+'.join(t) for t in combo)},merge={merge},tail={tail},shared_input={shared}", g
 
 
 def families(tier: str) -> List[Tuple[str, List[Node], Dict[str, str]]]:
